@@ -192,7 +192,7 @@ def _flat(name, fields, mapper, opt=()):
 
 
 def fixed_cases():
-    """hand-written cases: the predicted findings and the documented examples"""
+    """hand-written cases: the two fixed findings (now round-tripping), the open finding, a bad explicit key"""
     sw = _flat("Sw", ["a", "b"], {"d": [["a", "b"], ["b", "a"]]}, opt=("a",))
     dns = _flat("Dn", ["a", "b"], {"d": [["a", {"dns": True}]]}, opt=("a",))
     g = _flat("G", ["a", "b"], {"d": [["a", "z"]]})
@@ -206,6 +206,8 @@ def fixed_cases():
         out.append({"cls": dns, "kw": {"b": 2}, "camel": False, "strict": strict, "explicit": None, "doc2": False})
         out.append({"cls": top, "kw": {"m": {"g": {"a": 1, "b": 2}, "m_x": 3}}, "camel": False, "strict": strict,
                     "explicit": None, "doc2": False})
+    # a populated DoNotSerialize field is dropped: no round trip is claimed (must not be flagged)
+    out.append({"cls": dns, "kw": {"a": 1, "b": 2}, "camel": False, "strict": False, "explicit": None, "doc2": True})
     out.append({"cls": sw, "kw": {"a": 1, "b": 2}, "camel": False, "strict": False, "explicit": [["zz", "k"]],
                 "doc2": False})
     return out
